@@ -584,7 +584,7 @@ impl Property for C01 {
 
     fn run(&self, src: &mut Src, ctx: &RunCtx) -> RunReport {
         let thorough = ctx.tier == Tier::Thorough;
-        let mode = [Mode::SetTime, Mode::Readonly, Mode::NodeClock, Mode::Sharded][src.weighted(&[5, 6, 1, if thorough { 2 } else { 0 }])];
+        let mode = [Mode::SetTime, Mode::Readonly, Mode::NodeClock, Mode::Sharded][src.weighted(&if thorough { [5, 6, 1, 2] } else { [20, 24, 4, 1] })];
         let epoch_ms = BASE_EPOCH_MS + [0u64, 1, 500, 999][src.idx(4)];
         let seed = src.u64_any();
         let mut g = GenCfg::swarm(src, ALL_FAMS, 6);
